@@ -97,10 +97,18 @@ func genOffender(seed uint64, tier string, force string) *Scenario {
 		off.N = []int{0, 5, 40, 200, 520, 700, 1500}[r.Intn(7)]
 		off.Cut = []int{0, 0, 3, 60, 600}[r.Intn(5)]
 		off.Then = []string{"resume", "resume", "fin", "rst"}[r.Intn(4)]
+		off.Poses = []int{0, 0, 1, 3, 6}[r.Intn(5)]
 		if force != "" {
 			off.Then = "resume"
 			off.N = []int{520, 700, 1500}[r.Intn(3)]
 			off.Cut = []int{60, 600, 700}[r.Intn(3)]
+			off.Poses = 1 + r.Intn(5)
+		}
+		if off.Poses > 0 {
+			// the witness needs an entity to move
+			st := g.makeOp(0, "entity_add")
+			st.NoPose = false
+			g.steps = append(g.steps, st)
 		}
 		sc.World.Net.Window = []int{2 << 10, 4 << 10, 64 << 10}[r.Intn(3)]
 	case "update_then_close":
